@@ -34,7 +34,7 @@ Proof. exact pick_clip. Qed.
 Print Assumptions C16_hinted_range_sufficient_for_selection.
 
 Example C16_example :
-  let v := mkVS [mkM 0 MEq 1] 60000 60000 None None in
+  let v := mkVS [mkM 0 MEq 1] 60000 60000 None None 1 in
   let e := EAgg "sum" false [2%N] None (EParen (EBin "+" false OneToOne false [] [] (ECall "rate" [EMat v 300000]) (EVec v))) in
   native e /\ stepinv_ok e = true /\ mat_calls_unary e = true /\
   map (fun s => (s_func s, s_grp s, s_range s, s_start s, s_end s)) (eng_selects (mkW 1000000 1600000 30000) 300000 (mkH "" [] false) e) =
